@@ -11,6 +11,7 @@ UNITS = [
     D.scalar_unit("c07_discrete_interpolate", "h_c07_disc", ["DiscreteStateSpace::interpolate"],
                   [dict(name="no_rounding_offset", where="body:disc_interpolate", rx=r" \+ 0\.5\)", repl=" + 1.5)")]),
 ]
+UNITS.append(D.wrapper_unit("c07_wrapper_forwarders"))
 ASSUMPTIONS = D.FP_ASSUMPTIONS + ["input states in bounds / finite, 0 <= t <= 1"]
 TRUSTED = ["extraction rewrite table units/spaces_defs.py", "stubs units/spaces/fp_stubs.h", "CBMC 6.11 + kissat/cadical"]
 NOT_COVERED = ["alias safety of SO2/RealVector/Time interpolate as a solver obligation (comparing two bit-precise float evaluations did not finish in 20 min; checked by the native oracle only; Compound: each component called once with its own slots)", "t = 1 endpoint, re-parameterisation consistency and geodesic proportionality (exact-arithmetic laws; see known finding rv-overshoot for what rounding does at t = 1)",
